@@ -1001,6 +1001,30 @@ class ScopeGen:
                     tag_log(self.tag(), ("list", [
                         ("call", V(g), []), ("call", V(g), [("pos", I(50))]),
                         ("call", V(g), []), V(cnt)]))]
+        if ch.bool(0.6):
+            # a literal collection as default: every call that omits the
+            # argument gets a fresh one (defaults are evaluated at call time)
+            col = self.fresh("col")
+            dflt = ch.choice([("list", []), ("list", [I(0), I(0)]),
+                              ("map", []), ("set", [])])
+            if dflt[0] == "map":
+                body = [("setindex", V("acc"), V("x"), I(1)),
+                        ("expr", V("acc"))]
+            elif dflt[0] == "list" and dflt[1]:
+                body = [("setindex", V("acc"), I(0),
+                         ("bin", "+", ("index", V("acc"), I(0)), V("x"))),
+                        ("expr", V("acc"))]
+            else:
+                body = [("expr", call("append", V("acc"), V("x"))),
+                        ("expr", V("acc"))]
+            out.append(("deffn", col, [("x", None, False),
+                                       ("acc", dflt, False)], fnblock(body)))
+            calls_ = [("call", V(col), [("pos", I(i))])
+                      for i in range(1, ch.int(3, 4))]
+            first = self.fresh("fst")
+            out.append(("def", first, calls_[0]))
+            out.append(tag_log(self.tag(), ("list", calls_[1:]), V(first)))
+            self.features.add("mutable-default")
         self.features.add("T5")
         return out
 
